@@ -43,7 +43,12 @@ def validate_cases(rep, wd, module, cfg, per_case_lines, label="trace", max_reje
         if not lines:
             break
         ok, consumed, r = validate_trace(wd, module, lines, cfg=cfg)
-        rep.traces += 0
+        # deviation actions taken are printed by the trace spec as <<"DEV", id, line>>
+        rep.last_devs = []
+        for m in re.finditer(r'<<"DEV", "([^"]+)", (\d+)>>', r.out):
+            li = int(m.group(2)) - 1
+            if 0 <= li < len(owner) and (not ok and li >= consumed) is False:
+                rep.last_devs.append((m.group(1), owner[li][0]))
         if ok:
             rep.add_tlc(label, r)
             break
